@@ -198,7 +198,13 @@ def debug_runs(abidw, path, case):
         tid = [ln for ln in errs if re.match(r"error: no type with type-id: '[^']*' could be read back from the typeid file", ln)]
         tc = [ln for ln in lines if "structural & canonical equality different" in ln]
         other = [ln for ln in errs if ln not in fn and ln not in tid]
-        evs.append({"e": "DebugRun", "case": case, "mode": mode, "exit": r.exit if not r.sig else 0, "sig": r.sig,
+        # classification help for known finding C20-debug-abidiff-void-type-id: are all the type-ids complained about the id of the `void` type-decl?
+        only_void = False
+        if tid:
+            doc = vf.run([abidw, path], env=vf.henv(d), timeout=120).out
+            void_ids = set(re.findall(r"<type-decl name='void' id='([^']*)'", doc))
+            only_void = bool(void_ids) and all(re.search(r"type-id: '([^']*)'", ln).group(1) in void_ids for ln in tid)
+        evs.append({"e": "DebugRun", "case": case, "mode": mode, "exit": r.exit if not r.sig else 0, "sig": r.sig, "typeIdsAreVoid": only_void,
                     "errFnType": len(fn), "errTypeId": len(tid), "errOther": len(other), "tcDiffers": len(tc),
                     "ret": campaign.retof(r), "first": ((tc + other + tid + fn + [r.err[-200:]])[0])[:200]})
     return evs
